@@ -92,9 +92,14 @@ fn gen_plan(rng: &mut Prng) -> (ClockSpec, u64) {
     let mut plan = ProbePlan {
         d: Vec::new(),
         gap: (0..PROBES).map(|_| rng.range(20, 3000)).collect(),
-        start: match rng.below(3) {
+        start: match rng.below(5) {
             0 => rng.range(1, 1 << 30),
             1 => 1_700_000_000_000_000_000,
+            2 => {
+                // the probes cross a power-of-two boundary of the reading (2^32, 2^63, wrap-around)
+                let k = *rng.pick(&[32u32, 63, 64]);
+                if k == 64 { 0u64.wrapping_sub(rng.range(1, 3_000_000)) } else { (1u64 << k).wrapping_sub(rng.range(1, 3_000_000)) }
+            }
             _ => rng.u64() | 1,
         },
         zero_first: vec![],
